@@ -11,6 +11,7 @@ from collections import Counter
 from .. import interleave as il
 from .. import oracles, specs
 from ..framework import viol
+from ..runs import delivery_run
 from . import c04
 
 ID = "C07"
@@ -26,11 +27,15 @@ RULE = (
     "loser raised ConcurrencyError; nothing of a failed save ever becomes durable (if it left its implicit transaction "
     "open, the harness commits that connection as the next operation would, then looks for the loser's tag). Engine level: two upstream CompleteStage "
     "handlers updating one DISCRIMINATOR / N_OF_M join (_completed_branches must hold both), the same bookkeeping write x the "
-    "StartStage handler planning that join, CancelStage x CompleteTask. "
+    "StartStage handler planning that join, CancelStage x CompleteTask, a raising task's error-recording save x CancelStage. "
+    "Serializability of every pair of co-enabled messages: at every step of a FIFO run of ten workflow shapes each pair of "
+    "deliverable messages is handled by two workers under every one-preemption schedule (sampled in quick) plus a sample of "
+    "two-preemption ones; after draining, statuses and per-task execution counts must equal those of one of the two "
+    "sequential orders run from the same durable state. "
     "Non-trivial = schedule where both writers read before either wrote (same base version); distinct = trace hash."
 )
 ASSUMPTIONS = ["SQLite backend, busy timeout 0 under the cooperative scheduler", "statement-level interleavings"]
-MIN_OBS = {"same_base_version_races": {"quick": 300, "thorough": 5000}, "conflicts_raised": {"quick": 300, "thorough": 5000}, "rolled_back_after_successful_store": {"quick": 100, "thorough": 1500}}
+MIN_OBS = {"same_base_version_races": {"quick": 300, "thorough": 5000}, "conflicts_raised": {"quick": 300, "thorough": 5000}, "rolled_back_after_successful_store": {"quick": 100, "thorough": 1500}, "co_enabled_pair_schedules_with_switch": {"quick": 800, "thorough": 10000}}
 TIMEOUT = {"quick": 800, "thorough": 3400}
 
 MODES = ["plain", "plain_phase", "txn", "txn_phase", "plain_task", "txn_task", "txn_fault", "txn_commit_fault"]
@@ -60,6 +65,10 @@ def gen_cases(tier: str, seed: int) -> list[dict]:
                 cases.append({"kind": "api2", "modes": [mode_a, mode_b], "retry": retry, "chunk": 0, "chunks": 1, "seed": seed, "sample": 80 if tier == "quick" else 1500, "notasks": True})
     for i in range(10 if tier == "quick" else 80):
         cases.append({"kind": "api3", "i": i, "seed": seed, "runs": 25})
+    stride = 3 if tier == "quick" else 1
+    for sp in range(len(SERIAL_SPECS)):
+        for phase in range(stride):
+            cases.append({"kind": "serial_pairs", "spec": sp, "seed": seed, "stride": stride, "phase": phase, "sample": 6 if tier == "quick" else 30})
     for sp in (3, 4):
         cases.append({"kind": "engine", "pair": f"error_save_vs_cancel:{sp}", "chunk": 0, "chunks": 1, "seed": seed, "sample": 60 if tier == "quick" else 800})
     for pair in ("join_tracking:DISCRIMINATOR", "join_tracking:N_OF_M", "cancel_complete", "join_tracking_vs_plan:DISCRIMINATOR", "join_tracking_vs_plan:N_OF_M"):
@@ -433,7 +442,101 @@ def _uniq(vs: list[dict]) -> list[dict]:
     return out
 
 
+SERIAL_SPECS = [
+    lambda: specs.diamond(),
+    lambda: specs.multitask(),
+    lambda: specs.first_of(2),
+    lambda: specs.quorum(3, 2),
+    lambda: specs.synthetic(),
+    lambda: specs.or_split(),
+    lambda: specs.failed_continue(),
+    lambda: specs.jump_side_branch(1),
+    lambda: specs.early_join_with_successor(),
+    lambda: specs.stopped_branch(),
+]
+
+
+def _outcome(run) -> tuple:
+    from ..oracles import exec_counts
+
+    st = run.state.get("stages", {})
+    return (run.state.get("wf"), tuple(sorted((k, v["status"], tuple(t[1] for t in v["tasks"])) for k, v in st.items())), tuple(sorted((str(k), n) for k, n in exec_counts(run.ledger).items())), bool(run.quiescent))
+
+
+def _serial_pairs(case: dict) -> dict:
+    """Serializability of every pair of co-enabled messages: at every step of a FIFO run at which two (or more)
+    messages are deliverable, each pair of them is handled by two workers under every schedule with one preemption
+    (and a sample with two); after draining the rest, the outcome - workflow and stage / task statuses, per-task
+    execution counts - must be the outcome of one of the two sequential orders.  No reference model: the two serial
+    runs from the same durable state are the specification."""
+    from ..world import World
+
+    spec = SERIAL_SPECS[case["spec"]]()
+    rng = random.Random(case["seed"] * 733 + case["spec"])
+    ref = delivery_run(spec)
+    obs: Counter = Counter()
+    keys: set = set()
+    violations: list = []
+    for k in range(ref.steps):
+        if k % case["stride"] != case["phase"]:
+            continue
+        w = World()
+        cut = None
+        try:
+            w.submit(spec)
+            for _ in range(k):
+                rows = w.eligible(w.rows())
+                if not rows:
+                    break
+                w.deliver(rows[0]["id"])
+            rows = w.eligible(w.rows())
+            if len(rows) >= 2:
+                path = os.path.join(il.env.scratch_dir(), f"cut-{os.getpid()}-{random.randrange(1 << 40)}.db")
+                w.store._get_connection().commit()
+                w.copy_db(path)
+                cut = (path, [(r["id"], r["type"]) for r in rows[:3]])
+        finally:
+            w.close()
+        if cut is None:
+            continue
+        db, cand = cut
+        try:
+            pairs = [(cand[i], cand[j]) for i in range(len(cand)) for j in range(i + 1, len(cand))][:2]
+            for (ra, ta), (rb, tb) in pairs:
+                rows_ = [ra, rb]
+                serial = {}
+                for name, sc in (("A;B", [("W0", 10**6)]), ("B;A", [("W1", 10**6)])):
+                    run, info = il.run_pair(db, rows_, il.Segments(sc))
+                    if run is not None:
+                        serial[name] = _outcome(run)
+                if len(serial) < 2:
+                    obs["scheduler_watchdog"] += 1
+                    continue
+                na, nb = il.solo_length(db, ra), il.solo_length(db, rb)
+                one = il.bound_schedules(na, nb, 1)[2:]
+                two = il.bound_schedules(na, nb, 2, sample=case["sample"], rng=rng)[2 + len(one):]
+                scheds = (one if len(one) <= case["sample"] * 2 else rng.sample(one, case["sample"] * 2)) + two
+                for sc in scheds:
+                    run, info = il.run_pair(db, rows_, il.Segments(sc))
+                    obs["evaluations"] += 1
+                    if run is None:
+                        obs["scheduler_watchdog"] += 1
+                        continue
+                    if info["switches"]:
+                        obs["co_enabled_pair_schedules_with_switch"] += 1
+                        keys.add(f"serial:{spec['name']}:{ta}x{tb}:{info['trace_hash']}")
+                    got = _outcome(run)
+                    if got not in serial.values():
+                        a_, b_ = serial["A;B"], serial["B;A"]
+                        violations.append(viol(f"C07/pair-not-serializable:{ta}x{tb}", f"{spec['name']}, step {k}: {ta}(row {ra}) x {tb}(row {rb}) under schedule {sc} ends {got[0]} {[(s_[0], s_[1]) for s_ in got[1]]} executions {dict(got[2])}; the two serial orders end {a_[0]} {[(s_[0], s_[1]) for s_ in a_[1]]} {dict(a_[2])}" + ("" if a_ == b_ else f" / {b_[0]} {[(s_[0], s_[1]) for s_ in b_[1]]} {dict(b_[2])}")))
+        finally:
+            os.unlink(db)
+    return {"violations": _uniq(violations), "obs": dict(obs), "keys": sorted(keys)}
+
+
 def run_case(case: dict) -> dict:
+    if case["kind"] == "serial_pairs":
+        return _serial_pairs(case)
     if case["kind"] == "api2":
         return _api2(case)
     if case["kind"] == "api3":
